@@ -97,6 +97,6 @@ package batching
 //@   ensures called(Add) && called(Drain)
 //@   atcall fetchBatch: same(arg1, events)
 //@   atcall Add: arg0 == seqNum && same(arg1, result)
-//@   atcall send:Output@1: false
+//@   atcall send:Output: inloop(0)
 //@   loop 1:
 //@     step called("send:Output")
